@@ -74,7 +74,9 @@ def run_case(case):
     keysets = [rng.sample(KEYPOOL, rng.randint(0, 4)) for _ in range(L)]
     modes = [None] + [rng.choice(["fresh", "disk", "cache"] if bname != "fs" else ["fresh", "disk"]) for _ in range(L - 1)]
     cid = "chain-%d-%d" % (case["seed"], case["idx"])
-    spec = [{"kind": kinds[l], "make": level_factory(case["seed"], case["idx"], l, keysets[l])} for l in range(L)]
+    containers = [rng.choice(["dict", "dict", "defaultdict", "ordered"]) for _ in range(L)]
+    spec = [{"kind": kinds[l], "make": level_factory(case["seed"], case["idx"], l, keysets[l]), "container": containers[l]}
+            for l in range(L)]
     ffuncs.TABLE[cid] = spec
     overlays, cur = [], {}
     for l in range(L):
@@ -82,7 +84,7 @@ def run_case(case):
         cur.update(spec[l]["make"]())
         overlays.append(cur)
     overlap = any(set(keysets[i]) & set(keysets[j]) for i in range(L) for j in range(i))
-    label = "backend %s kinds %s keys %s parent-provenance %s" % (bname, kinds, keysets, modes[1:])
+    label = "backend %s kinds %s (mappings given as %s) keys %s parent-provenance %s" % (bname, kinds, containers, keysets, modes[1:])
 
     def fail(sig, msg):
         if len(out["viol"]) < 8:
@@ -133,7 +135,8 @@ def run_case(case):
             for tag in ["s1", "s2"][: rng.randint(1, 2)]:
                 j = rng.randint(1, L - 1)
                 sk = rng.sample(KEYPOOL, rng.randint(1, 3))
-                sspec = {"kind": rng.choice(["mem", "disk"]), "make": level_factory(case["seed"], case["idx"], "sib" + tag, sk)}
+                sspec = {"kind": rng.choice(["mem", "disk"]), "make": level_factory(case["seed"], case["idx"], "sib" + tag, sk),
+                         "container": rng.choice(["dict", "defaultdict"])}
                 ffuncs.TABLE[cid + "/sib/" + tag] = sspec
                 want = dict(overlays[j - 1])
                 want.update(sspec["make"]())
